@@ -1,5 +1,5 @@
 (* Correspondence harness for C01.  A case = (template + options, template data dumped by the probe,
-   skeleton extracted by goskel from the file the real template wrote for the same configuration). *)
+   skeleton extracted by goscope from the file the real template wrote for the same configuration). *)
 From Mk Require Import Lib.Bytes Gen.Alloc Gen.Skeleton.
 
 Inductive tmpl := Testify (o : topts) | Matryer (o : mopts).
@@ -15,7 +15,6 @@ Definition guards (c : case) : bool :=
   | Testify o => tf_guards (c_data c)
   | Matryer o => mt_guards o (c_data c)
   end.
-Definition known_types (c : case) : list str := c_types (skel_ctx (model c)).
 
 (* which conjuncts of wf_file fail: 1 paths, 2 qualifiers, 3 unused import, 4 top-level names, 5 name/qualifier,
    6 name/package, 7 qualifier/package, 8 methods, 100+k declaration number k *)
@@ -41,7 +40,8 @@ Record verdict := { v_guards : bool; v_data : bool; v_names : bool; v_wf_model :
 
 Definition check_case (c : case) : verdict :=
   let m := model c in
-  {| v_guards := guards c; v_data := data_ok (c_data c) (known_types c); v_names := file_names_ok m;
+  {| v_guards := guards c; v_data := data_ok (c_data c) (skel_ctx m)
+               && match c_tmpl c with Matryer o => d_mt o (c_data c) (skel_ctx m) | Testify _ => d_tf (c_data c) end; v_names := file_names_ok m;
      v_wf_model := wf_file m; v_wf_ext := wf_file (c_ext c);
      v_model_fail := wf_failures m; v_ext_fail := wf_failures (c_ext c);
      v_diff := skel_diff m (c_ext c) |}.
